@@ -5,6 +5,7 @@ import (
 	"errors"
 	"fmt"
 	"io"
+	"runtime"
 	"runtime/debug"
 	"unsafe"
 
@@ -27,6 +28,16 @@ type streamObs struct {
 	NextCalls int
 	// EagerRewrites counts blocks completed between two NextBlock calls
 	EagerRewrites int
+	Collections   int // garbage collections the scenario placed
+}
+
+// collect runs a garbage collection and gives finalizers a chance to run.
+func collect() {
+	runtime.GC()
+	for i := 0; i < 4; i++ {
+		runtime.Gosched()
+	}
+	runtime.GC()
 }
 
 func applyKnobs(k map[string]int) {
@@ -91,6 +102,10 @@ func runStreamWith(doc []byte, rs *ReaderScn, sharedIP *commonmark.InlineParser)
 			}
 		}
 		obs.AtSnap = append(obs.AtSnap, snapRoot(b))
+		if (rs.GC == "mid" || rs.GC == "both") && rs.GCEvery > 0 && len(obs.Blocks)%rs.GCEvery == 0 && obs.Collections < 8 {
+			collect()
+			obs.Collections++
+		}
 		if len(obs.Blocks) > 4*len(doc)+16 {
 			obs.FirstErr = errors.New("harness: more blocks than bytes")
 			break
@@ -105,6 +120,11 @@ func runStreamWith(doc []byte, rs *ReaderScn, sharedIP *commonmark.InlineParser)
 		obs.ExtraErrs = append(obs.ExtraErrs, err)
 	}
 	rd.reuse()
+	if rs.GC == "end" || rs.GC == "both" {
+		p = nil // the parser is unreachable from here on; the blocks are not
+		collect()
+		obs.Collections++
+	}
 	// stability: blocks delivered earlier must be unchanged by later calls
 	for i, b := range obs.Blocks {
 		if i >= len(obs.AtSnap) {
